@@ -465,6 +465,13 @@ def r8_dispatch_and_readonly(ctx):
     _C07.r1_no_operand_mutation(ctx)
 
 
+def r9_types_stay_registered(ctx):
+    """The temperature and logarithmic rules apply as long as their types are in UNIT_TYPES: a unit scope removes only
+    the types it inserted itself (do/undo pairing of the one table writer, shared with C09.R2)."""
+    from . import C09 as _C09
+    _C09.r2_pairing(ctx)
+
+
 RULES = [
     ("C05.R1", "each pairwise temperature method is the affine map alpha*v+beta required by the standard scale relations and the tabulated unit factors (tolerance 1e-9)", r1_temperature_formulas),
     ("C05.R2", "every ordered temperature pair the type claims (touching Cel/degF, identity included) has a conversion method; a missing method is an error", r2_temperature_complete),
@@ -472,6 +479,7 @@ RULES = [
     ("C05.R4", "exponent and reference level of every documented logarithmic unit given the tabulated factor of its linear unit", r4_reference_levels),
     ("C05.R5", "level addition/subtraction is log10(10^(a m) +- 10^(b m))/m after bringing b to a's unit; dimension and unit guards raise", r5_level_addition),
     ("C05.R6", "process lists equal the table rows naming the class; special types precede the standard type; first claiming type wins", r6_tables_agree),
+    ("C05.R9", "the built-in conversion types stay registered: a unit scope removes from UNIT_TYPES exactly what it inserted (shared with C09.R2)", r9_types_stay_registered),
     ("C05.R8", "every sum/difference/conversion goes through the unit-type dispatch (no early return); conversions do not write to their operand (effect analysis shared with C07.R1)", r8_dispatch_and_readonly),
     ("C05.R7", "a refused temperature/logarithmic conversion leaves the quantity untouched (store-before-raise path rule of to(), shared with C04.R4)", r7_failed_conversion),
 ]
